@@ -41,7 +41,7 @@ def lib_tasks(tier):
     tasks = []
     hdr = [(R.F_PATH, (b'o', b'/a')), (R.F_INTERFACE, (b's', b'a.b')), (R.F_MEMBER, (b's', b'M'))]
     bodies = list(gen.bodies(2, True, 1))
-    step = 40 if quick else 5
+    step = 10 if quick else 2
     progs = []
     for body in bodies[::step]:
         m = R.Msg(R.MT_CALL, 0, 7, list(hdr), body)
@@ -55,12 +55,12 @@ def lib_tasks(tier):
     # header edits: every edit of C12's alphabet on a spread of its start messages
     starts = [R.encode_message(m, auto_signature=False).hex() for m in c12.start_messages('quick')]
     ops = c12.edit_alphabet((1, 7, 8, 9, 17, 40))
-    for st in starts[::(40 if quick else 6)]:
+    for st in starts[::(60 if quick else 12)]:
         for op in ops:
             progs.append(('OOMEDIT %s %s' % (st, c12.op_text(op)), 'edit:' + op[0] + ('-del' if op[1] is None and op[0] != 'strip' else '')))
     from . import c07
     rules = c07.templated_rules()
-    for r in rules[::(12 if quick else 2)]:
+    for r in rules[::(4 if quick else 1)]:
         if R.G.valid_utf8(r) and b'\0' not in r and len(r) < 1100:
             progs.append(('OOMRULE ' + (r.hex() or '-'), 'rule'))
     for i in range(0, len(progs), 30):
@@ -217,6 +217,9 @@ PREFIXES = [
     [['add', 'A'], ['add', 'A']],
     [['call', 'A', 'B']],
     [['req', 'B', 1], ['call', 'A', 'B'], ['add', 'C']],
+    [['req', 'A', 1], ['req', 'B', 0], ['req', 'C', 0]],
+    [['req', 'A', 3], ['req', 'B', 1], ['add', 'A']],
+    [['call', 'A', 'B'], ['call', 'C', 'B'], ['req', 'B', 0]],
 ]
 
 
@@ -225,6 +228,10 @@ def requests_for(prefix):
     for f in range(8):
         reqs.append(['req', 'B', f])
     reqs.append(['req', 'A', 2])
+    reqs.append(['req', 'C', 3])
+    # a connection going away is also "an operation": its cleanup must complete whatever allocation fails
+    reqs.append(['disc', 'A'])
+    reqs.append(['disc', 'B'])
     if any(p[0] == 'call' for p in prefix):
         reqs.append(['reply', 'B', 'A', None])
     return reqs
@@ -239,9 +246,16 @@ def run_once(prefix, req, k):
         req[3] = s.bus.serial[s.slots['A']] - 1
     pre_dump = re.sub(r'serial=\d+', 'serial=*', s.impl_key())
     blocks_pre = s.bus.blocks()
-    m = s.build(req)
     c = s.slots[req[1]]
-    s.bus.send(c, R.encode_message(m))
+    if req[0] == 'disc':
+        class _NoMsg:
+            serial = 0
+        m = _NoMsg()
+        s.bus.h.cmd('CLOSE %d nopump' % c)
+        s.slots[req[1]] = None
+    else:
+        m = s.build(req)
+        s.bus.send(c, R.encode_message(m))
     fired = False
     if k is not None:
         s.bus.h.cmd('FAILALLOC %d' % k)
@@ -384,7 +398,7 @@ def run(ctx):
     quick = ctx.tier == 'quick'
     tasks = lib_tasks(ctx.tier)
     cfgs = config_set()
-    for c in (cfgs[:2] if quick else cfgs):
+    for c in (cfgs[:4] if quick else cfgs):
         tasks.append((task_config, [c]))
     prefixes = PREFIXES       # all prior states in both tiers (the quick tier thins the flag words of RequestName instead)
     for p in prefixes:
